@@ -215,6 +215,8 @@ def _index_extra(draw, extra, idx, isz, kind, env):
         # the index code is the value of a run-time expression
         bottom = -(1 << (isz - 1)) if draw(st.booleans()) else 0
         lo = draw(st.integers(bottom, (1 << isz) - 1))
+        if bottom < 0 and draw(st.booleans()):
+            lo = draw(st.integers(bottom, -1))      # a range that really reaches below zero
         hi = draw(st.integers(lo, (1 << isz) - 1))
         if draw(st.integers(0, 3)) == 0:
             hi = (1 << isz) - 1 + draw(st.integers(1, 9))
@@ -602,7 +604,7 @@ def operand_for(draw, alt, isa_env, place, simple=False):
                     lo = max(lo, 0)
                     if lo > hi:
                         return None
-                v = draw(st.one_of(st.sampled_from([lo, hi]), st.integers(lo, hi)))
+                v = draw(st.one_of(st.sampled_from([lo, hi] + ([lo, -1] if lo < 0 <= hi else [])), st.integers(lo, hi)))
             else:
                 v = draw(st.sampled_from(sorted(ialt['bytecode']['value_dict'])))
             if v < 0 or ('minted' in place and draw(st.integers(0, 2)) == 0):
